@@ -19,3 +19,13 @@ func C07ReadLoop(h *Handler, remote identity.AgentID, streamID uint64, conn net.
 	h.connCount.Add(1)
 	h.readLoop(ac)
 }
+
+// C07Register registers an open connection whose destination is `conn` (far end of the TCP path:
+// the real HandleStreamData opens each frame and writes the bytes to the destination).
+func C07Register(h *Handler, remote identity.AgentID, streamID uint64, conn net.Conn, key *crypto.SessionKey) {
+	ac := &ActiveConnection{StreamID: streamID, RemoteID: remote, Conn: conn, StartedAt: time.Now(), sessionKey: key}
+	h.mu.Lock()
+	h.connections[streamID] = ac
+	h.mu.Unlock()
+	h.connCount.Add(1)
+}
